@@ -147,6 +147,8 @@ def build(chain, fk, pos):
         exp.append(f"enter {i}")
     files = {"x.ms": "\n".join(main) + "\n"}
     if helper:
+        if chain and chain[-1] == "modfn" and fk == "nil-field":
+            helper = ["class Kf {", "\tf: int", "\tconstructor(self) {", "\t\tself.f = 1", "\t}", "}"] + helper
         files["helper.ms"] = "\n".join(helper) + "\n"
     return files, exp, frames
 
